@@ -319,11 +319,17 @@ func (s *Sched) unstash(ch reflect.Value) (reflect.Value, bool) {
 		return reflect.Value{}, false
 	}
 	k := ch.Pointer()
-	v, ok := s.stash[k]
+	e, ok := s.stash[k]
 	if ok {
 		delete(s.stash, k)
 	}
-	return v, ok
+	return e.v, ok
+}
+
+// a stashed timer value keeps its channel alive, so the address used as key cannot be reused by another channel
+type stashed struct {
+	ch reflect.Value
+	v  reflect.Value
 }
 
 // breakTimerTie removes the one scheduling choice the Go runtime would otherwise make for us: when several
@@ -359,9 +365,9 @@ func (s *Sched) breakTimerTie(rc []reflect.SelectCase, i int, v reflect.Value, o
 	for k, h := range hits {
 		if k != pick {
 			if s.stash == nil {
-				s.stash = map[uintptr]reflect.Value{}
+				s.stash = map[uintptr]stashed{}
 			}
-			s.stash[rc[h.i].Chan.Pointer()] = h.v
+			s.stash[rc[h.i].Chan.Pointer()] = stashed{rc[h.i].Chan, h.v}
 		}
 	}
 	s.timerTies++
